@@ -23,7 +23,7 @@ func init() {
 	simkit.Register(&simkit.Prop{
 		ID:             "C33",
 		Desc:           "cross-chain headers need signatures of two thirds of distinct peers",
-		Rule:           "a run = a ledger whose header-sync contract first stores a side chain's genesis header (4..7 consensus peers) through a real syncGenesisHeader transaction, then 4..16 syncBlockHeader transactions from a Byzantine relayer carrying side-chain headers with tape-chosen signer sections: k distinct members with valid signatures (k around the 2/3 bound), one member listed several times with repeated signatures, non-members, invalid / swapped signatures, fewer signatures than bookkeepers; some headers carry a new chain configuration, which changes the peer set governing later heights (history dimension); headers travel as bytes inside real transactions in real blocks. Oracle: a header is STORED by the contract (read back from contract storage) only if the number of DISTINCT members of the governing peer set with a valid signature over the header hash, times 3, is at least the peer count times 2. non-trivial = >= 1 header accepted and >= 1 rejected with the oracle evaluated; distinct = distinct event-trace hash",
+		Rule:           "a run = a ledger whose header-sync contract first stores a side chain's genesis header (4..7 consensus peers) through a real syncGenesisHeader transaction, then 4..16 syncBlockHeader transactions from a Byzantine relayer carrying side-chain headers with tape-chosen signer sections: k distinct members with valid signatures (k around the 2/3 bound), one member listed several times with repeated signatures, distinct members listed with one member's signature standing in for another's, non-members, invalid / swapped signatures, fewer signatures than bookkeepers; some headers carry a new chain configuration, which changes the peer set governing later heights (history dimension); headers travel as bytes inside real transactions in real blocks. Oracle: a header is STORED by the contract (read back from contract storage) only if the number of DISTINCT members of the governing peer set with a valid signature over the header hash, times 3, is at least the peer count times 2. non-trivial = >= 1 header accepted and >= 1 rejected with the oracle evaluated; distinct = distinct event-trace hash",
 		Real:           []string{"smartcontract/service/native/cross_chain/header_sync (SyncGenesisHeader, SyncBlockHeader, VerifyHeader)", "cross_chain/common header codec", "core/signature", "core/store/ledgerstore + NeoVM native invoke path", "global_params operator check"},
 		Stub:           []string{"solo block producer", "side chain (harness builds and signs its headers)", "relayer (harness)"},
 		Assumptions:    []string{"the only simulator dimensions are forgery by a Byzantine relayer and the history of peer-set changes"},
@@ -110,8 +110,8 @@ func runC33(c *simkit.Ctx) {
 			hash := hdr.Hash()
 			n := len(governing)
 			need := (2*n + 2) / 3 // smallest k with 3k >= 2n
-			kind := t.Pick(3, 3, 3, 2, 2, 2, 2)
-			name := []string{"enough-distinct", "one-too-few", "duplicates-of-one-member", "non-member-added", "invalid-signature", "fewer-sigs-than-keys", "duplicates-padding-to-quorum"}[kind]
+			kind := t.Pick(3, 3, 3, 2, 2, 2, 2, 3)
+			name := []string{"enough-distinct", "one-too-few", "duplicates-of-one-member", "non-member-added", "invalid-signature", "fewer-sigs-than-keys", "duplicates-padding-to-quorum", "repeated-signature-under-distinct-keys"}[kind]
 			sign := func(a *account.Account) []byte {
 				sg, err := signature.Sign(a, hash[:])
 				c.Must(err, "sign header")
@@ -158,6 +158,22 @@ func runC33(c *simkit.Ctx) {
 					hdr.Bookkeepers = append(hdr.Bookkeepers, governing[j].PublicKey)
 					if idx > 0 {
 						hdr.SigData = append(hdr.SigData, sign(governing[j]))
+					}
+				}
+			case 7: // `need` (or more) distinct members listed, one of their signatures replaced by a copy of another's
+				k := need + t.Choose(n-need+1)
+				for _, j := range perm[:k] {
+					hdr.Bookkeepers = append(hdr.Bookkeepers, governing[j].PublicKey)
+					hdr.SigData = append(hdr.SigData, sign(governing[j]))
+				}
+				if k >= 2 {
+					for rep, cnt := 0, 1+k-need; rep < cnt; rep++ { // leave need-1 distinct signers
+						dst := t.Choose(k)
+						src := t.Choose(k)
+						if src == dst {
+							src = (dst + 1) % k
+						}
+						hdr.SigData[dst] = hdr.SigData[src]
 					}
 				}
 			case 6: // need-1 distinct honest signers plus a repeat of one of them
